@@ -43,106 +43,69 @@ def find_nodes(g, pred):
 
 
 def rule_reg(ctx):
+    """a request is registered - under its own id, with (request, success callback, error callback) - at the moment it
+    leaves the layer: _sendIq is abstractly executed and the registry is inspected when the stanza goes down (a reply
+    may arrive on another thread right after)"""
     for rel, cn in REGISTRIES:
         fn = ctx.repo.method(rel, cn, "_sendIq")
         w = where(rel, cn + "._sendIq", fn.lineno)
-        g = CFG(fn)
-        ps = params_of(fn)
-        writes = [n for n in g.live if n.kind == "stmt" and isinstance(n.stmt, ast.Assign) and any(
-            isinstance(t, ast.Subscript) and unparse(t.value) == "self.iqRegistry" for t in n.stmt.targets)]
-        sends = [n for (n, x) in find_nodes(g, lambda x: isinstance(x, ast.Call) and is_self_attr(x.func, "toLower"))]
-        if len(writes) != 1 or len(sends) != 1:
-            ctx.violate("C08.reg", w, fn, "expected one registry write and one send in _sendIq, found %d / %d" % (len(writes), len(sends)))
+        sim = HistSim(ctx.repo, rel, cn)
+        r = sim.run([("send", "r1")])
+        snap = sim.sent
+        if r and r[0][1] == "raise":
+            ctx.violate("C08.reg", w, fn, "_sendIq raises for a plain iq request: %s" % r[0][2][:60])
             continue
-        wr, sd = writes[0], sends[0]
-        dom = g.dominates(wr, sd)
-        ctx.check("C08.reg", dom, w, wr.stmt, "the request is sent before (or without) being registered: a fast reply finds no entry", "registry write dominates the send")
-        # key = the request's id, value = (request, success, error) in this order
-        t = wr.stmt.targets[0]
-        key_ok = unparse(t.slice) == "%s.getId()" % ps[0]
-        val = wr.stmt.value
-        val_ok = isinstance(val, ast.Tuple) and [unparse(e) for e in val.elts] == ps[:3]
-        ctx.check("C08.reg", key_ok and val_ok, w, "registry[%s] = %s" % (unparse(t.slice), unparse(val)),
+        if len(snap) != 1:
+            ctx.violate("C08.reg", w, fn, "expected the request to be sent exactly once by _sendIq, found %d send(s)" % len(snap))
+            continue
+        down, registered = snap[0]
+        ent = registered.get("r1")
+        ctx.check("C08.reg", ent is not None, w, "registered before the send",
+                  "the request is sent before (or without) being registered under its id: a fast reply finds no entry (registry at send time: %s)" % sorted(map(str, registered)),
+                  "the registry holds the request's id when the stanza goes down")
+        req = sim.reqs["r1"]
+        val_ok = ent is not None and ent[0] == "list" and len(ent[1]) == 3 and ent[1][0][0] == "obj" and ent[1][0][1] is req[1] \
+            and [x[0] == "closure" and "%r" % k in unparse(x[1]) for x, k in zip(ent[1][1:], ("ok", "err"))] == [True, True]
+        ctx.check("C08.reg", bool(val_ok), w, "registry[id] = (request, success, error)",
                   "the entry must be keyed by the request's id and hold (request, success callback, error callback)", "keyed by request id; (request, success, error)")
-        # the request itself is what goes down
-        call = [x for (n, x) in find_nodes(g, lambda x: isinstance(x, ast.Call) and is_self_attr(x.func, "toLower"))][0]
-        arg = unparse(call.args[0]) if call.args else ""
-        ctx.check("C08.reg", arg in (ps[0], "%s.toProtocolTreeNode()" % ps[0]), w, call, "something other than the registered request is sent", "the registered request is sent")
+        same = (down[0] == "obj" and down[1] is req[1]) or (down[0] == "node" and getattr(down[1], "made_by", (None, None))[0] is req[1])
+        ctx.check("C08.reg", bool(same), w, "the registered request is what is sent", "something other than the registered request is sent", "the registered request is sent")
 
 
 def rule_pop(ctx):
+    """the reply side, by abstract execution with a re-entrant environment: the callback of a consumed reply is invoked
+    once even when the same reply is delivered again *from inside the callback* (the entry is gone before the callback
+    runs); result selects the success callback and error the error callback, each called with (reply, original request);
+    the registry reports True exactly for a consumed reply; only <iq> stanzas are matched"""
     for rel, cn in REGISTRIES:
-        cls = ctx.repo.cls(rel, cn)
         fn = ctx.repo.method(rel, cn, "processIqRegistry")
         w = where(rel, cn + ".processIqRegistry", fn.lineno)
-        g = CFG(fn)
-        ev = Evaluator(ctx.repo, cls.module, cls)
-        P = params_of(fn)[0]
-        # id variable
-        ids = [n for n in g.live if n.kind == "stmt" and isinstance(n.stmt, ast.Assign) and unparse(n.stmt.value) in ('%s["id"]' % P, "%s['id']" % P, "%s.getId()" % P, '%s.getAttributeValue("id")' % P)]
-        if len(ids) != 1:
-            ctx.violate("C08.pop", w, fn, "the registry must be looked up by the reply's own id")
-            continue
-        idv = ids[0].stmt.targets[0].id
-        tests = [n for n in g.live if n.kind == "test" and isinstance(n.stmt.test, ast.Compare) and isinstance(n.stmt.test.ops[0], ast.In)
-                 and unparse(n.stmt.test.left) == idv and unparse(n.stmt.test.comparators[0]) == "self.iqRegistry"]
-        dels = [n for n in g.live if n.kind == "stmt" and isinstance(n.stmt, ast.Delete) and unparse(n.stmt.targets[0]) == "self.iqRegistry[%s]" % idv]
-        pops = [n for (n, x) in find_nodes(g, lambda x: isinstance(x, ast.Call) and unparse(x.func) == "self.iqRegistry.pop")]
-        unpack = [n for n in g.live if n.kind == "stmt" and isinstance(n.stmt, ast.Assign) and isinstance(n.stmt.targets[0], ast.Tuple)
-                  and (unparse(n.stmt.value) in ("self.iqRegistry[%s]" % idv, "self.iqRegistry.pop(%s)" % idv))]
-        if len(tests) != 1 or len(unpack) != 1 or not (dels or pops):
-            ctx.violate("C08.pop", w, fn, "expected: `if id in registry`, unpack of the entry, and removal of the entry (found %d/%d/%d)" % (len(tests), len(unpack), len(dels) + len(pops)))
-            continue
-        names = [e.id for e in unpack[0].stmt.targets[0].elts if isinstance(e, ast.Name)]
-        if len(names) != 3:
-            ctx.undecided("C08.pop", w, unpack[0].stmt, "entry is not unpacked into three names")
-            continue
-        orig, okcb, errcb = names
-        remover = (dels or pops)[0]
-        calls = {}
-        for (n, x) in find_nodes(g, lambda x: isinstance(x, ast.Call) and isinstance(x.func, ast.Name) and x.func.id in (okcb, errcb)):
-            calls.setdefault(x.func.id, []).append((n, x))
-        for cbname, kind in ((okcb, "result"), (errcb, "error")):
-            cs = calls.get(cbname, [])
-            if len(cs) != 1:
-                ctx.violate("C08.pop", w, "call of " + cbname, "the %s callback must be called at exactly one place (found %d)" % (kind, len(cs)))
+        sim = HistSim(ctx.repo, rel, cn)
+        for rtype, cbname in (("result", "ok"), ("error", "err")):
+            got = sim.run([("send", "r1"), ("reply", "r1", rtype, "iq")], reenter=True)
+            rep = [g for g in got if g[0][0] == "reply"]
+            if not rep or rep[0][1] == "raise":
+                ctx.violate("C08.pop", w, "%s reply" % rtype, "a %s reply raises: %s" % (rtype, rep[0][2][:60] if rep else "not run"))
                 continue
-            n, call = cs[0]
-            # deleted before the callback runs (a replayed or re-entrant reply finds nothing)
-            ctx.check("C08.pop", g.dominates(remover, n), where(rel, cn + ".processIqRegistry", n.line), "%s(...) after removal" % cbname,
-                      "the callback can run while the entry is still registered: a reply arriving during the callback (or a replay) invokes it again", "entry removed before the callback runs")
-            # guard pairs the reply type with the callback
-            guards = []
-            for t in g.live:
-                if t.kind == "test" and isinstance(t.stmt, ast.If):
-                    reg = {x.id for x in edge_region(g, t, "true")}
-                    if n.id in reg:
-                        for c in ast.walk(t.stmt.test):
-                            if isinstance(c, ast.Compare) and isinstance(c.ops[0], ast.Eq):
-                                a = alts(ev.ev(c.comparators[0])) or alts(ev.ev(c.left))
-                                if a:
-                                    guards.append(a[0])
-            ctx.check("C08.pop", kind in guards, where(rel, cn + ".processIqRegistry", n.line), "%s(...) guarded by type == %r" % (cbname, kind),
-                      "the %s callback is invoked for reply type(s) %s" % ("success" if kind == "result" else "error", guards), "type %r selects this callback" % kind)
-            ctx.check("C08.pop", [unparse(a) for a in call.args] == [P, orig], where(rel, cn + ".processIqRegistry", n.line), call,
-                      "the callback must receive (reply, original request); it gets (%s)" % ", ".join(unparse(a) for a in call.args), "called with (reply, original request)")
-        # return True iff found
-        found_region = {x.id for x in edge_region(g, tests[0], "true")}
-        rets = [n for n in g.live if n.kind == "stmt" and isinstance(n.stmt, ast.Return)]
-        ok = True
-        for r in rets:
-            v = alts(ev.ev(r.stmt.value)) if r.stmt.value is not None else [None]
-            if r.id in found_region:
-                ok = ok and v == [True]
-            else:
-                ok = ok and v == [False]
-        # every path through the found branch returns True
-        esc = g.path(tests[0], lambda x: x in [r for r in rets if r.id not in found_region] or x is g.exit, edge_ok=lambda a, b, k: not (a is tests[0] and k != "true"),
-                     avoid=[r for r in rets if r.id in found_region])
-        ctx.check("C08.pop", ok and esc is None and len(rets) >= 2, w, "return value", "processIqRegistry must return True exactly when an entry was found (a consumed reply would otherwise also be dispatched as an ordinary stanza, or an ordinary stanza swallowed)", "True iff an entry was found")
-        # only iq stanzas are looked up
-        tagtests = [n for n in g.live if n.kind == "test" and ("tag" in unparse(n.stmt.test) or "getTag" in unparse(n.stmt.test)) and "iq" in unparse(n.stmt.test)]
-        ctx.check("C08.pop", len(tagtests) == 1 and g.dominates(tagtests[0], tests[0]), w, "only <iq> is looked up", "non-iq stanzas must not be matched against the registry", "lookup guarded by tag == iq")
+            step, ncb, nup, detail = rep[0]
+            ctx.check("C08.pop", ncb == 1, w, "%s reply delivered again from inside its callback" % rtype,
+                      "the callback can run while the entry is still registered: a reply arriving during the callback (or a replay) invokes it again (%d invocations)" % ncb if ncb > 1 else "the %s callback must be called exactly once (found %d)" % ("success" if rtype == "result" else "error", ncb),
+                      "entry removed before the callback runs: one invocation")
+            ctx.check("C08.pop", [d[0] for d in detail[:1]] == [cbname], w, "%s reply selects the %s callback" % (rtype, "success" if cbname == "ok" else "error"),
+                      "a %s reply invokes %s" % (rtype, [d[0] for d in detail] or "no callback"), "type %r selects this callback" % rtype)
+            ctx.check("C08.pop", bool(detail) and all(d[2] and d[3] for d in detail), w, "%s callback arguments" % rtype,
+                      "the callback must receive (reply, original request)", "called with (reply, original request)")
+        # return value of processIqRegistry itself: True iff an entry was found; only <iq> is looked up
+        vals = {}
+        for label, hist, probe in (("found", [("send", "r1")], ("r1", "result", "iq")), ("unknown id", [("send", "r1")], ("zz", "result", "iq")),
+                                   ("not an iq", [("send", "r1")], ("r1", "result", "message")), ("other iq type", [("send", "r1")], ("r1", "set", "iq"))):
+            vals[label] = sim.probe_registry(hist, probe)
+            if label == "not an iq":
+                kept = sim.last_registry_has("r1")
+        want = {"found": ("c", True), "unknown id": ("c", False), "not an iq": ("c", False), "other iq type": ("c", True)}
+        ok = all(vals[k] == want[k] for k in want)
+        ctx.check("C08.pop", ok, w, "return value", "processIqRegistry must return True exactly when an entry was found (a consumed reply would otherwise also be dispatched as an ordinary stanza, or an ordinary stanza swallowed); got %s" % {k: show(v)[:12] for k, v in vals.items()}, "True iff an entry was found")
+        ctx.check("C08.pop", vals["not an iq"] == ("c", False) and kept, w, "only <iq> is looked up", "non-iq stanzas must not be matched against the registry", "a non-iq stanza with a pending id leaves the entry alone")
 
 
 def receive_overrides(repo):
@@ -239,16 +202,50 @@ def rule_cb(ctx):
     return n
 
 
+def generated_ids(repo, n=3, short=False, classes=None, clock="1700000000"):
+    """abstract execution of ProtocolEntity._generateId, n times in a row on instances of different entity classes, the
+    clock frozen (all ids fall into the same second): -> list of abstract id values"""
+    base = repo.cls(PENT, "ProtocolEntity")
+    subs = classes or [base]
+    frozen = lambda itp, recv, a, k, env, d, e: ("c", float(clock))
+    it = Interp(repo, {}, {}, hooks={"ext:time.time": frozen, "ext:module time.time": frozen})
+    out = []
+    for i in range(n):
+        o = ("obj", Obj(subs[i % len(subs)]))
+        try:
+            v = it.method_call(o, "_generateId", [("c", True)] if short else [], {}, {"@module": base.module, "@owner": base}, 0, None)
+        except _Raise as r:
+            v = ("unk", "raises " + r.text)
+        out.append(v)
+    return out
+
+
 def rule_id(ctx):
+    """ids are unique within the process: _generateId is abstractly executed several times in a row - on instances of
+    different entity classes, inside one clock second - and the values must be pairwise different constants, in the
+    long and the short form (a per-class or per-instance counter, or an id without the counter, repeats)"""
     repo = ctx.repo
     fn = repo.method(PENT, "ProtocolEntity", "_generateId")
     w = where(PENT, "ProtocolEntity._generateId", fn.lineno)
-    incs = [n for n in ast.walk(fn) if isinstance(n, ast.AugAssign) and isinstance(n.op, ast.Add)]
-    ok = len(incs) == 1 and unparse(incs[0].target).startswith("ProtocolEntity.") and unparse(incs[0].value) == "1"
-    ctx.check("C08.id", ok, w, incs[0] if incs else fn, "the id counter must be a class attribute of ProtocolEntity (process-wide), incremented by one per id", "process-wide counter incremented per id")
-    uses = [n for n in ast.walk(fn) if isinstance(n, ast.Return)]
-    ok = bool(uses) and all("ProtocolEntity." in unparse(r.value) and "ID_GEN" in unparse(r.value) for r in uses)
-    ctx.check("C08.id", ok, w, uses[0] if uses else fn, "generated ids must contain the counter value", "id derived from the counter")
+    base = repo.cls(PENT, "ProtocolEntity")
+    subs = [base]
+    for name in ("IqProtocolEntity", "MessageProtocolEntity", "ReceiptProtocolEntity"):
+        for c in repo.by_simple.get(name, []):
+            if base in repo.mro(c) and c not in subs:
+                subs.append(c)
+                break
+    for short in (False, True):
+        ids = generated_ids(repo, n=2 * len(subs), short=short, classes=subs)
+        label = "%s ids, %d in a row across %d entity classes within one second" % ("short" if short else "long", len(ids), len(subs))
+        if not all(v[0] == "c" and isinstance(v[1], str) for v in ids):
+            from ..absint import show as _show
+            # not constants: the interpreter could not follow the generator
+            ctx.undecided("C08.id", w, label, "generated id is not evaluated to a string: %s" % [_show(v)[:30] for v in ids][:3])
+            continue
+        vals = [v[1] for v in ids]
+        ctx.check("C08.id", len(set(vals)) == len(vals), w, label,
+                  "generated ids repeat (%s): the counter is not process-wide (per class / per instance) or is not part of the id" % vals[:4],
+                  "pairwise different (%s, ...)" % ", ".join(vals[:2]))
     iq = None
     for c in repo.by_simple.get("IqProtocolEntity", []):
         if "protocol_iq" in c.relpath:
@@ -291,16 +288,45 @@ class HistSim:
         n.attrs["type"] = ("c", rtype)
         return ("node", n)
 
-    def run(self, history):
-        """history: list of ('send', rid) | ('reply', rid, type, tag).  -> (log of callback invocations, dispatched stanzas)"""
-        it = Interp(self.repo, {}, {}, hooks=self.hooks())
+    def registry_of(self, layer):
+        r = layer[1].fields.get("iqRegistry")
+        return dict(r[1]) if r is not None and r[0] == "dict" else {}
+
+    def last_registry_has(self, rid):
+        return rid in self.registry_of(self.layer)
+
+    def probe_registry(self, history, probe):
+        """value returned by processIqRegistry(reply) after `history`"""
+        self.run(history)
+        rep = self.make_reply(self.it, *probe)
+        try:
+            return self.it.method_call(self.layer, "processIqRegistry", [rep], {}, {"@module": self.cls.module}, 0, None)
+        except _Raise as r:
+            return ("unk", "raises " + r.text[:30])
+
+    def run(self, history, reenter=False):
+        """history: list of ('send', rid) | ('reply', rid, type, tag).  -> (log of callback invocations, dispatched stanzas)
+        reenter: every callback invocation delivers the reply that triggered it once more, from inside the callback"""
+        hooks = self.hooks()
+        self.sent = []
+        down0 = hooks.get("method:toLower")
+
+        def down(itp, recv, a, k, env, d, e):
+            if recv[0] == "obj" and recv[1] is self.layer[1]:
+                self.sent.append((a[0] if a else None, self.registry_of(self.layer)))
+            return down0(itp, recv, a, k, env, d, e) if down0 is not None else None
+        hooks["method:toLower"] = down
+        it = Interp(self.repo, {}, {}, hooks=hooks)
         it.layer_base = self.runner.base
         layer = self.runner.make_layer(it, self.cls)
+        self.it, self.layer = it, layer
         if "entity_callbacks" in layer[1].fields:
             layer[1].fields["entity_callbacks"] = ("dict", {})     # plain interface layer: no application callbacks
         log = []
         out = []
         reqs = {}
+        self.reqs = reqs
+        current = {"rep": None, "depth": 0}
 
         def mk_cb(kind, rid):
             lam = ast.parse("lambda reply, original: __record__(%r, %r, reply, original)" % (kind, rid), mode="eval").body
@@ -308,6 +334,12 @@ class HistSim:
 
         def record(itp, e, args, kwargs, env, depth):
             log.append((args[0][1], args[1][1], args[2], args[3]))
+            if reenter and current["rep"] is not None and current["depth"] < 2:
+                current["depth"] += 1
+                try:
+                    it.method_call(layer, "receive", [current["rep"]], {}, {"@module": self.cls.module}, 0, None)
+                finally:
+                    current["depth"] -= 1
             return C_NONE
         it.hooks["builtin:__record__"] = record
         for step in history:
@@ -320,6 +352,7 @@ class HistSim:
                     it.method_call(layer, "_sendIq", [req, mk_cb("ok", rid), mk_cb("err", rid)], {}, {"@module": self.cls.module}, 0, None)
                 else:
                     rep = self.make_reply(it, step[1], step[2], step[3])
+                    current["rep"] = rep
                     before = len(log)
                     it.method_call(layer, "receive", [rep], {}, {"@module": self.cls.module}, 0, None)
                     ups = [e for e in it.effects if e[0] == "UP"]
